@@ -1496,6 +1496,47 @@ def run_common(ctx, prop, rep, proof_targets):
                                         "replay": "h_registry <file with the text of `case`>"}, finding=finding)
     if model is not None and prop == "C05" and n_route_bad == 0:
         rep.tie("own-default-classification", True, "model ORoute vs oracle mis-route detection agree on every case")
+    # ---- a slice of the same histories on a build WITHOUT debug assertions (release profile): what is compiled out with
+    #      debug_assert! must not matter.  Oracle on its observations + equality with the debug build's observations.
+    okr, pathsr, logr = vlib.cargo_build(ctx, "registry", ["h_registry"], release=True)
+    if not okr:
+        rep.tie("build:h_registry --release", False, vlib.last_error(logr))
+    else:
+        nslice = 110 if not ctx.thorough() else 1200
+        rcases = [c for c in cases if c["mode"] == "corpus"] + [c for c in cases if c["mode"] != "corpus"][:nslice]
+        rimpl, rerrs = run_impl(ctx, pathsr["h_registry"], rcases)
+        if rerrs:
+            rep.tie("run:h_registry --release", False, "; ".join(rerrs[:3]))
+        rdis = []
+        seen = set()
+        for c in rcases:
+            r = rimpl.get(c["id"])
+            if r is None or "complete" not in r:
+                continue
+            rep.count("cases:release-build slice")
+            rep.evaluations += 1
+            a = [[x for x in (norm_impl_obs(o) for o in ops) if x is not None] for ops in r["ops"]]
+            b = [[x for x in (norm_impl_obs(o) for o in ops) if x is not None] for ops in impl[c["id"]]["ops"]]
+            if a != b or bool(r["stopped"]) != bool(impl[c["id"]]["stopped"]):
+                k = next((i for i in range(min(len(a), len(b))) if a[i] != b[i]), min(len(a), len(b)))
+                rdis.append({"case": c["id"], "op_index": k, "op": list(c["ops"][k]) if k < len(c["ops"]) else None,
+                             "release": a[k] if k < len(a) else None, "debug": b[k] if k < len(b) else None, "text": case_text(c)})
+            o, fails = oracle_failures(c, r, prop)
+            for grp, what, finding, k in fails:
+                sig = "[build without debug assertions] " + "".join(ch for ch in what if not ch.isdigit())
+                if sig in seen:
+                    continue
+                seen.add(sig)
+                cc = c
+                if finding is None and shrunk < 5:
+                    shrunk += 1
+                    try:
+                        cc = shrink(ctx, pathsr["h_registry"], c, prop, what)
+                    except Exception as ex:       # noqa: BLE001
+                        ctx.log("shrink failed: %s" % ex)
+                rep.violation(sig.strip(), {"what": what, "at_op": k, "case_id": c["id"], "case": case_text(cc), "build": "release (no debug assertions)",
+                                            "replay": "h_registry (cargo build --release) <file with the text of `case`>"}, finding=finding)
+        rep.tie("release-build-vs-debug-build observations", not rdis, "%d of %d histories differ between the two builds" % (len(rdis), len(rcases)), rdis[:1] or None)
     # ---- forced schedules of the reference-count micro-steps (needs the H3 registry yield points)
     if prop == "C05":
         import props.regsched as S
@@ -1527,7 +1568,7 @@ def replay_common(ctx, prop, rep, payload, proof_targets):
         fixed = bool(shapes_tr.analyse(ctx.repo)[3].get("clear_resets"))
         S.replay_scenario(ctx, rep, paths2["h_registry_sched"], fixed, case["scenario"], case.get("run"))
         return rep
-    ok, paths, log = vlib.cargo_build(ctx, "registry", ["h_registry"])
+    ok, paths, log = vlib.cargo_build(ctx, "registry", ["h_registry"], release=str(case.get("build", "")).startswith("release"))
     if not ok:
         rep.tie("build:h_registry", False, vlib.last_error(log))
         return rep
